@@ -202,6 +202,10 @@ def gen_step(w, rng):
         st = {"op": "json_rt", "arr": V.gen_array_spec(rng, dict(cfg, dtypes=["f8", "i8", "O"], mutable_meta=True))}
     elif r < 0.70:
         st = _gen_reject(w, rng)
+    elif r < 0.75 and existing:
+        # read a file and write what was read into another file: the second generation must equal the first
+        src = rng.choice(existing)
+        st = {"op": "rewrite", "src": src, "dst": rng.choice([p for p in PATHS if p != src])}
     else:
         path = rng.choice(existing)
         fm = w.files[path]
@@ -451,7 +455,7 @@ def x_ds_write(w, s):
         kw.update(spec.get("nc_kwargs", {}))
         if s.get("alias"):
             w.count("c19:write_alias")
-        (ds.write if s.get("alias") else ds.write_nc)(path, mode=mode, **kw)
+        (ds.write if s.get("alias") else ds.write_nc)(path, mode="a+" if (s.get("aplus") and mode == "a") else mode, **kw)
     except Exception as e:
         absorb_unknown(w, path)
         if s.get("recovery") and w.props:
@@ -506,7 +510,8 @@ def x_arr_write(w, s):
     try:
         if s.get("alias"):
             w.count("c19:write_alias")
-        (a.write if s.get("alias") else a.write_nc)(path, name, mode=mode, **_fmt(w, s))
+        ckw = {"clobber": True} if (s.get("clobber") and exists and mode in ("a", "a+")) else {}
+        (a.write if s.get("alias") else a.write_nc)(path, name, mode=mode, **dict(_fmt(w, s), **ckw))
     except Exception as e:
         absorb_unknown(w, path)
         if "C19" in w.props:
@@ -794,5 +799,36 @@ def x_json_rt(w, s):
     return "ok"
 
 
-STEPS = {"ds_write": x_ds_write, "arr_write": x_arr_write, "reject": x_reject, "open": x_open, "h_close": x_h_close,
+def x_rewrite(w, s):
+    src, dst = s["src"], s["dst"]
+    fm = w.files.get(src)
+    if fm is None or src == dst:
+        raise Skip("file")
+    if any(p in (src, dst) for (p, m, h) in w.handles.values()):
+        raise Skip("busy")
+    if fm.attrs_unknown or any(v["unknown"] or v.get("has_missing") for v in fm.vars.values()) \
+            or any(d["unknown"] or d["unlimited"] or d["labels"] is None for d in fm.dims.values()):
+        raise Skip("the source must be fully known")
+    if any(d not in [x for v in fm.vars.values() for x in v["dims"]] for d in fm.dims):
+        raise Skip("a dimension no variable uses does not come back through read_nc")
+    try:
+        ds = w.da.read_nc(src)
+        ds.write_nc(dst, mode="w", **_fmt(w, s))
+    except Exception as e:
+        absorb_unknown(w, dst)
+        if "C19" in w.props:
+            raise Violation("C19", "write_raises", "writing what read_nc(%s) returned into %s raises %s: %s" % (src, dst, type(e).__name__, str(e)[:200]))
+        return "raise:" + type(e).__name__
+    finally:
+        finalize_leaks(w)
+    w.files[dst] = _copy.deepcopy(fm)
+    w.files[dst].format = w.cfg["format"] if w.cfg.get("explicit_format") else w.files[dst].format
+    w.n_writes += 1
+    w.count("c19:rewrite_second_generation")
+    if "C19" in w.props:
+        verify_file(w, dst, "rt_equal", "C19", "after writing what read_nc(%s) returned" % src)
+    return "ok"
+
+
+STEPS = {"rewrite": x_rewrite, "ds_write": x_ds_write, "arr_write": x_arr_write, "reject": x_reject, "open": x_open, "h_close": x_h_close,
          "h_set": x_h_set, "h_axes_append": x_h_axes_append, "h_meta": x_h_meta, "read": x_read, "json_rt": x_json_rt}
